@@ -2,6 +2,7 @@ package checks
 
 import (
 	"bytes"
+	"crypto/sha1"
 	"encoding/binary"
 	"fmt"
 	"strings"
@@ -574,7 +575,7 @@ func largeTopTo32(x []byte) []byte {
 }
 
 // e1RunFileSeed explores ring 1 of one file seed.
-func e1RunFileSeed(idx int, s e1Seed, p e1Props, thorough bool) *e1SeedReport {
+func e1RunFileSeed(idx int, s e1Seed, p e1Props, thorough bool, shard, nShards int) *e1SeedReport {
 	rep := &e1SeedReport{Seed: idx, Level: "file", ByKind: map[string]int64{}}
 	failSeen := map[string]int{}
 	addFail := func(f e1Fail, dev string, x []byte) {
@@ -584,10 +585,16 @@ func e1RunFileSeed(idx int, s e1Seed, p e1Props, thorough bool) *e1SeedReport {
 		}
 		rep.Fails = append(rep.Fails, e1FailRec{e1Fail: f, Seed: s.Name, Dev: dev, Input: vf.Hex(clipN(x, 70000)), Level: "file"})
 	}
-	base := e1EvalFile(s.Bytes, p)
-	rep.Cands++
-	for _, f := range base.Fails {
-		addFail(f, "seed itself", s.Bytes)
+	primary := shard == 0 // ring 1 is evaluated and counted by shard 0; the other shards only rebuild the ring-1 state list
+	if nShards < 1 {
+		nShards = 1
+	}
+	if primary {
+		base := e1EvalFile(s.Bytes, p)
+		rep.Cands++
+		for _, f := range base.Fails {
+			addFail(f, "seed itself", s.Bytes)
+		}
 	}
 	f, ok := safeDecodeFileSR(s.Bytes)
 	if !ok {
@@ -596,6 +603,15 @@ func e1RunFileSeed(idx int, s e1Seed, p e1Props, thorough bool) *e1SeedReport {
 	seen := map[string]bool{}
 	var ring1 []e1Cand
 	e1FileCands(s.Bytes, f, func(cd e1Cand) {
+		if !primary {
+			if _, acc := safeDecodeFileSR(cd.X); acc && !seen[string(cd.X)] {
+				seen[string(cd.X)] = true
+				if thorough && len(s.Bytes) <= 2048 && (cd.Kind == "remove" || cd.Kind == "relabel" || cd.Kind == "duplicate" || cd.Kind == "swap" || cd.Kind == "move") {
+					ring1 = append(ring1, cd)
+				}
+			}
+			return
+		}
 		e1Trace("file", cd.Desc, cd.X)
 		rep.Cands++
 		rep.ByKind[cd.Kind]++
@@ -621,6 +637,9 @@ func e1RunFileSeed(idx int, s e1Seed, p e1Props, thorough bool) *e1SeedReport {
 	})
 	// ring 2 on small (generated) files: all pairs of structural deviations
 	for _, c1 := range ring1 {
+		if h := sha1.Sum(c1.X); int(h[0])%nShards != shard { // by content, so that the shards agree whatever their list order
+			continue
+		}
 		f2, ok := safeDecodeFileSR(c1.X)
 		if !ok {
 			continue
